@@ -17,11 +17,17 @@ fn main() {
         pr: PROFILE,
         npairs: if o.n > 0 { o.n as usize } else { 20 },
         cap: if o.n > 0 { o.n as usize } else { 40 },
+        fixed: None,
     };
     let mut t: Vec<Entry<Ctx>> = vec![];
     let mut ts: Vec<Entry<Ctx>> = vec![];
     t.extend(for_all_layouts!(lay_table!(Ctx; run;)));
     ts.extend(for_all_layouts_s!(lay_table!(Ctx; run_s;)));
+    if let Some(path) = &o.replay {
+        replay_events(&mut c, path, &[&t, &ts], &[16, 32, 64, 128]);
+        c.wr.flush();
+        return;
+    }
     for e in t.iter().chain(ts.iter()) {
         // the 8-bit layouts are covered exhaustively by the arith bin
         if e.lay.w > 8 && (o.widths.is_empty() || o.widths.contains(&e.lay.w)) {
